@@ -30,6 +30,7 @@ func init() {
 		Parts: []Part{
 			{Name: "resolve-orders", Run: func(c *core.Ctx) { resolveRun(c, "C10") }, QuickS: 60, ThoroughS: 900},
 			{Name: "self-candidate", Run: c10Self, QuickS: 40, ThoroughS: 300},
+			{Name: "typed-cycle-orders", Run: c10Typed, QuickS: 60, ThoroughS: 600},
 			{Name: "graph-orders", Run: c10Graphs, QuickS: 60, ThoroughS: 900},
 			{Name: "percall-deviations", Run: c10Dev, QuickS: 60, ThoroughS: 900},
 			{Name: "scan-schedules", Run: c10Scan, QuickS: 60, ThoroughS: 900},
